@@ -443,6 +443,15 @@ def run_case(run, case, stats):
 
     def obs(x):
         return "None" if isinstance(x, Raised) else "(Some %s)" % L.cvalue(x)
+    try:
+        for x in (e_full, e_win, l_win):
+            obs(x)
+    except ValueError as ex:
+        # the implementation returned an array of a dtype the scaling model has no value for (e.g. a void dtype for
+        # a numeric channel): not a harness matter but a wrong result
+        run.violation("scaled-dtype-" + key, "a read of the scaled channel returned an array the model has no value for: %s"
+                      % ex, rep, expected="an array of the channel's (scaled) dtype", actual=str(ex))
+        return None
     term = "(%s, %s, %s, %s, %s, %d, %d, %s)" % (
         L.cprops(chan), L.cprops(group), L.cprops(root), L.crawdata(data, scalers), obs(e_full), o, l, obs(e_win))
     plain = case["daqmx"] is None
